@@ -592,7 +592,7 @@ func (q *checker) bcheckAssignment(lhs *a.Expr, op t.ID, rhs *a.Expr) error {
 		// Update any facts involving lhs.
 		if err := q.facts.update(func(x *a.Expr) (*a.Expr, error) {
 			xOp, xLHS, xRHS := parseBinaryOp(x)
-			if xOp == 0 || !xLHS.Eq(lhs) {
+			if xOp == 0 || !xLHS.Eq(lhs) || rhs.Mentions(lhs) {
 				if x.Mentions(lhs) {
 					return nil, nil
 				}
